@@ -75,7 +75,7 @@ fn gen_injections(rng: &mut impl Rng, macs: &[Mac]) -> Vec<Inj> {
             f.extend_from_slice(&body);
             f
         };
-        let kind = rng.gen_range(0..16);
+        let kind = rng.gen_range(0..20);
         let (proto, bytes, what): (u8, Vec<u8>, &str) = match kind {
             0 => (0, rng.bytes_between(0, 60), "random bytes as IPv4"),
             1 => {
@@ -182,6 +182,61 @@ fn gen_injections(rng: &mut impl Rng, macs: &[Mac]) -> Vec<Inj> {
                 h.ttl = *rng.pick(&[0u8, 1]);
                 h.dst = C.to_be_bytes();
                 (0, wrap(h, udp_to(7000, &payload)), "TTL 0/1 through the router")
+            }
+            16..=19 => {
+                // compound mutation: one to three header fields wrong AT ONCE and/or the frame cut or
+                // extended, so that fields disagree with each other and with the bytes that arrived.
+                // The payload does not carry the marker: such frames are judged on crashes only.
+                let pl = rng.bytes_between(0, 40);
+                let mut f = if rng.chance(1, 4) {
+                    let t = WTcp { sp: 4444, dp: 8080, seq: rng.gen(), ack: rng.gen(), flags: rng.gen_range(0..64), wnd: rng.gen(), urg: 0 };
+                    let mut seg = wire::pack_tcp(ip4.src, ip4.dst, &t, &pl, false);
+                    seg.extend_from_slice(&pl);
+                    let mut h = ip4;
+                    h.protocol = 6;
+                    wrap(h, seg)
+                } else {
+                    wrap(ip4, udp_to(*rng.pick(&[7000u16, 67, 68, 53]), &pl))
+                };
+                let actual = f.len() as u16;
+                for _ in 0..rng.gen_range(1..=3) {
+                    match rng.gen_range(0..8) {
+                        0 => f[0] = 0x40 | rng.gen_range(0..16u8),
+                        1 => {
+                            let r: u16 = rng.gen();
+                            let l = *rng.pick(&[0u16, 19, 20, 24, 28, 40, 60, actual.wrapping_sub(1), actual.wrapping_add(1), 0xffff, r]);
+                            if f.len() >= 4 {
+                                f[2..4].copy_from_slice(&l.to_be_bytes());
+                            }
+                        }
+                        2 => f.truncate(rng.gen_range(0..=f.len())),
+                        3 => {
+                            if f.len() >= 8 {
+                                f[6] = rng.gen::<u8>() & 0x7f;
+                                f[7] = rng.gen();
+                            }
+                        }
+                        4 => {
+                            if f.len() >= 10 {
+                                f[9] = *rng.pick(&[6u8, 17, 1, 0, 255]);
+                            }
+                        }
+                        5 => {
+                            if f.len() >= 26 {
+                                let r: u16 = rng.gen();
+                                let l = *rng.pick(&[0u16, 7, 8, 9, actual.wrapping_sub(21), actual.wrapping_sub(19), 0xffff, r]);
+                                f[24..26].copy_from_slice(&l.to_be_bytes());
+                            }
+                        }
+                        6 => {
+                            if f.len() >= 33 {
+                                f[32] = rng.gen_range(0..16u8) << 4;
+                            }
+                        }
+                        _ => f.extend_from_slice(&rng.bytes_between(0, 64)),
+                    }
+                }
+                (0, f, "compound header mutation")
             }
             _ => {
                 let mut f = wrap(ip4, udp_to(7000, &payload));
